@@ -227,7 +227,7 @@ const (
 	opArrDelete = 21
 )
 
-var setNames = []string{"SetNull", "SetBool(true)", "SetBool(false)", "SetInt(-5 | MaxInt64 | MinInt64 by route)", "SetUInt(2^64-1 | 7 | 2^63 by route)", "SetFloat(2.5 | 1e21 | 5e-324 by route)", `SetString("")`, `SetString("x\"\n")`, "SetStringBytes(40B)"}
+var setNames = []string{"SetNull", "SetBool(true)", "SetBool(false)", "SetInt(-5 | MaxInt64 | MinInt64 by route)", "SetUInt(2^64-1 | 2^63-1 | 2^63 by route)", "SetFloat(2.5 | 1e21 | 5e-324 by route)", `SetString("")`, `SetString("x\"\n")`, "SetStringBytes(40B)"}
 
 var fortyBytes = []byte("0123456789abcdefghijABCDEFGHIJ\x00\x01\x7f\"\\/\n\t\r\b")
 
@@ -254,7 +254,7 @@ func (o editOp) String() string {
 // boundary and large values are all written at every position
 var (
 	setIntVals   = [3]int64{-5, math.MaxInt64, math.MinInt64}
-	setUintVals  = [3]uint64{math.MaxUint64, 7, 1 << 63}
+	setUintVals  = [3]uint64{math.MaxUint64, math.MaxInt64, 1 << 63}
 	setFloatVals = [3]float64{2.5, 1e21, 5e-324}
 )
 
